@@ -42,6 +42,25 @@ pub struct Case {
     pub sut: SutCfg,
     pub nkeys: usize,
     pub ops: Vec<Op>,
+    /// how the keys are spelled: 0 = "k<i>", 1 = "obj.<i>" (one stem, the index after the last dot),
+    /// 2 = "versions-1.15.<i>", 3 = "k<i>" and "k<i>.idx" alternating (a key that is another key plus a suffix)
+    #[serde(default)]
+    pub key_style: u8,
+}
+
+fn key_name(style: u8, i: usize) -> SimKey {
+    SimKey(match style {
+        1 => format!("obj.{i}"),
+        2 => format!("versions-1.15.{i}"),
+        3 => {
+            if i % 2 == 0 {
+                format!("k{}", i / 2)
+            } else {
+                format!("k{}.idx", i / 2)
+            }
+        }
+        _ => format!("k{i}"),
+    })
 }
 
 const NS: u64 = 1;
@@ -267,7 +286,7 @@ impl Scenario for Cache {
         "exploration"
     }
     fn rule(&self) -> &'static str {
-        "Seeded histories (3-40 ops) of put/put_with_ttl/get/contains/remove/clear/size/stats/advance(+recreate for disk) on the real MemoryCache (5 eviction policies, max_entries 1..1000, max_memory_bytes None/1..1000, values 0..2x the byte limit, key population > capacity) and the real DiskCache (with/without sub-directories, with/without background tasks) under the virtual clock. Every read is judged against a map-with-expiry model ('latest value or nothing', nothing only if expired/removed/possibly evicted); bounds after every op; reported size/usage vs. what a probe of every key retrieves at the end; disk: a new instance must serve until the TTL ends and not after. Non-trivial = >= 2 state-changing ops; distinct = hash of (config, ops, observed results)."
+        "Seeded histories (3-40 ops) of put/put_with_ttl/get/contains/remove/clear/size/stats/advance(+recreate for disk) on the real MemoryCache (5 eviction policies, max_entries 1..1000, max_memory_bytes None/1..1000, values 0..2x the byte limit, key population > capacity; keys spelled k<i>, or in one run in three obj.<i> / versions-1.15.<i> / k<i> + k<i>.idx - equal up to their last dot, or one a prefix of the other) and the real DiskCache (with/without sub-directories, with/without background tasks) under the virtual clock. Every read is judged against a map-with-expiry model ('latest value or nothing', nothing only if expired/removed/possibly evicted); bounds after every op; reported size/usage vs. what a probe of every key retrieves at the end; disk: a new instance must serve until the TTL ends and not after. Non-trivial = >= 2 state-changing ops; distinct = hash of (config, ops, observed results)."
     }
     fn assumptions(&self) -> Vec<&'static str> {
         vec![
@@ -358,7 +377,9 @@ impl Scenario for Cache {
             };
             ops.push(op);
         }
-        Case { sut, nkeys, ops }
+        // the spelling of the keys is drawn last (the rest of the case does not depend on it)
+        let key_style = if rng.chance(1, 3) { rng.range(1, 3) as u8 } else { 0 };
+        Case { sut, nkeys, ops, key_style }
     }
 
     fn execute(&self, case: &Case, ctx: &mut Ctx) -> Option<Violation> {
@@ -444,7 +465,7 @@ async fn run(case: &Case, ctx: &mut Ctx) -> Option<Violation> {
     let no_default_ttl = matches!(&case.sut, SutCfg::Memory { default_ttl_ms: None, .. } | SutCfg::Disk { default_ttl_ms: None, .. });
     let mut r = Run {
         case,
-        keys: (0..nkeys).map(SimKey::n).collect(),
+        keys: (0..nkeys).map(|i| key_name(case.key_style, i)).collect(),
         m: (0..nkeys).map(|_| KeyModel::default()).collect(),
         sut_name,
         ctxsig,
